@@ -18,6 +18,9 @@ running the native I/O probe with stdout/stderr captured.
 import os, re, shutil, subprocess, tempfile, time
 
 SINK_RE = re.compile(r"^(std::io::_e?print|std::io::(stdio::)?_e?print|std::io::std(out|err)|std::io::Std(out|err)|std::process::|std::fs::|std::net::|std::os::)")
+# shared mutable state: synchronisation primitives / atomics / thread-locals (only useful on statics) and `static mut`
+STATE_RE = re.compile(r"(^|::|<)(Mutex|RwLock|Once|OnceLock|LazyLock|Condvar|LocalKey|Atomic[A-Z]\w*)(::|<)")
+STATIC_MUT_RE = re.compile(r"const \{alloc\d+: \*mut ")
 ENTRY_RE = re.compile(
     r"(::try_read(_validate|_greedy)?$|::write$|::hide$|::reveal$|::get_length$|::from$|::new$|::subreader$|::bytes$|::skip_bytes$|"
     r"::read_u\d+(_be)?_unchecked$|::write_(u\d+(_be)?|bytes(_at)?)$|::len$|::is_empty$|::fmt$|::as_stop_ccn$|::as_cdn$)")
@@ -59,6 +62,8 @@ def parse(mir):
     fns = {}  # name -> list of callee texts
     cur = None
     for ln in mir.split("\n"):
+        if cur is not None and STATIC_MUT_RE.search(ln):
+            fns[cur].append("static mut::access")
         m = re.match(r"^fn (.+?)\((?:.*)\) -> .*\{$", ln) or re.match(r"^fn (.+?)\(", ln)
         if m and ln.startswith("fn "):
             cur = m.group(1).strip()
@@ -79,7 +84,12 @@ def parse(mir):
     return fns
 
 
-def build_facts(fns):
+def build_facts(fns, sink_re=None):
+    sink_re = sink_re or SINK_RE
+    return _build_facts(fns, sink_re)
+
+
+def _build_facts(fns, SINK_RE):
     names = sorted(fns)
     idx = {n: i for i, n in enumerate(names)}
     by_seg = {}
@@ -89,7 +99,7 @@ def build_facts(fns):
     calls, sinks, sink_calls = set(), set(), {}
     for f, callees in fns.items():
         for c in callees:
-            if SINK_RE.match(c):
+            if SINK_RE.search(c):
                 sinks.add(f)
                 sink_calls.setdefault(f, []).append(c)
                 continue
@@ -177,6 +187,20 @@ def run(repo, scratch, z3="/usr/bin/z3"):
         res.update(status="unreachable")
     else:
         res.update(status="reachable", chain=chain(calls, entries, sinks))
+    # second query, same encoding: shared mutable state reachable from the API?
+    st_re = re.compile(STATE_RE.pattern + r"|^static mut::access")
+    n2, i2, c2, s2, sc2, e2 = build_facts(fns, st_re)
+    path2 = os.path.join(scratch, "state.smt2")
+    open(path2, "w").write(datalog(n2, i2, c2, s2, e2))
+    p2 = subprocess.run([z3, path2], capture_output=True, text=True, timeout=300)
+    out2 = (p2.stdout + p2.stderr).strip()
+    f2 = out2.split("\n")[0].strip() if out2 else ""
+    if "(error" in out2 or f2 not in ("sat", "unsat"):
+        res.update(state_status="error")
+    elif f2 == "unsat":
+        res.update(state_status="unreachable")
+    else:
+        res.update(state_status="reachable", state_chain=chain(c2, e2, s2), state_calls={k: v for k, v in sc2.items()})
     return res
 
 
